@@ -216,6 +216,7 @@ def _base_case(draw, shard, worlds_per_shard=3):
 def pair_case(draw, shard, tier):
     d, c = _base_case(draw, shard)
     c["setter"] = d.coin()
+    c["how"] = dict(container=d.int(0, 5), clone=d.int(0, 4), spell=d.int(0, 2), held=d.int(0, 2))
     return c
 
 
@@ -242,7 +243,29 @@ def ref_case(draw, shard, tier, chains=False):
     # four date bands walked through by the shards (few examples per shard)
     band = shard % 4 if chains else (shard // 3) % 4
     lo = 41700 + band * 4025
-    return dict(shard=shard, mjd=d.int(lo, lo + 4024), sod_us=d.int(300, 86100) * 10**6 + d.int(0, 999999),
+    mjd, sod = d.int(lo, lo + 4024), d.int(300, 86100)
+    edge = "none"
+    if d.int(0, 9) < 3:
+        # days on which something changes: turn of the year, the day a leap second takes effect and the
+        # day before, both ends of the shipped tables; 5 .. 20 min from 0h UTC on either side
+        from .. import env
+
+        tab = iers.tables(env.repo())
+        leaps = [m for m in tab.leap_days() if tab.first < m < tab.last]
+        edge = ("year", "leap", "leap-eve", "table-end")[(d.int(0, 3) + shard) % 4]
+        if edge == "year":
+            year = 1974 + (d.int(0, 42) + 7 * shard) % 43
+            import datetime
+
+            mjd = (datetime.date(year, 1, 1) - datetime.date(1858, 11, 17)).days - d.int(0, 1)
+        elif edge == "leap":
+            mjd = leaps[(d.int(0, len(leaps) - 1) + shard) % len(leaps)]
+        elif edge == "leap-eve":
+            mjd = leaps[(d.int(0, len(leaps) - 1) + shard) % len(leaps)] - 1
+        else:
+            mjd = d.pick(tab.first, tab.first + 1, tab.last - 1, tab.last)
+        sod = d.int(300, 1200) if d.coin() else d.int(85200, 86100)
+    return dict(shard=shard, mjd=mjd, sod_us=sod * 10**6 + d.int(0, 999999), edge=edge,
                 label=ALL_LABELS[(d.int(0, 5) + shard) % 6])
 
 
@@ -267,38 +290,121 @@ def era_label(mjd):
 # ----------------------------------------------------------------- helpers
 
 
-def convert(fr, state, dt, a, b, setter=False):
+CONTAINERS = ["list", "tuple", "f64", "f32", "ints", "i64"]
+CLONES = ["none", ".copy()", "pickle", "copy.copy", "copy.deepcopy"]
+SPELLS = ["object", "name", "same"]
+HELD = ["cartesian", "spherical", "cylindrical"]  # mu-free forms; element forms: facet forms_across_bodies
+
+
+def shape_state(x, container):
+    """(object handed to StateVector, the float64 numbers it stands for)."""
+    x = np.asarray(x, float)
+    if container in ("ints", "i64"):
+        vals = [int(round(v)) for v in x]
+        return (vals if container == "ints" else np.array(vals, dtype=np.int64)), np.array(vals, float)
+    if container == "f32":
+        arr = np.array(x, dtype=np.float32)
+        return arr, arr.astype(float)
+    if container == "f64":
+        return np.array(x, dtype=np.float64), x
+    return (tuple(float(v) for v in x) if container == "tuple" else [float(v) for v in x]), x
+
+
+def clone_of(obj, how):
+    import copy
+    import pickle
+
+    if how == ".copy()":
+        return obj.copy()
+    if how == "pickle":
+        return pickle.loads(pickle.dumps(obj))
+    if how == "copy.copy":
+        c = copy.copy(obj)
+    elif how == "copy.deepcopy":
+        c = copy.deepcopy(obj)
+    else:
+        return obj
+    if c.base is None:
+        raise Violation("clone-unusable", f"{how}() of a StateVector owns no base buffer: its copy() and its frame / form "
+                                          f"setters raise")
+    return c
+
+
+def frame_spelling(fr, label, spell):
+    if spell == "object":
+        return fr[label]
+    return label if label in BUILTIN or label in JPL else fr[label].name
+
+
+def polar_conditioning(*vecs):
+    k = 1.0
+    for v in vecs:
+        rho2 = v[0] ** 2 + v[1] ** 2
+        k = max(k, (rho2 + v[2] ** 2) / max(rho2, 1e-300))
+    return k
+
+
+def convert(fr, state, dt, a, b, setter=False, how=None):
+    """state in frame a -> frame b (cartesian numbers).  how = dict(container, clone, spell, held):
+    the container the numbers are handed over in, a clone made of the state before it is used, the
+    way the target frame is named, the form the state is held in while its frame changes."""
     from beyond.orbits import StateVector
 
-    sv = StateVector(list(state), dt, "cartesian", fr[a])
+    how = how or {}
+    arg, _ = shape_state(state, how.get("container", "list"))
+    before = arg.copy() if isinstance(arg, np.ndarray) else None
+    sv = StateVector(arg, dt, "cartesian", fr[a])
+    held = how.get("held", "cartesian")
+    spell = how.get("spell", "object")
+    if held != "cartesian" and (setter or spell != "same"):
+        sv = sv.copy(form=held)  # (with same=<template> the template alone says which form comes out)
+    original, kept = sv, (np.array(sv.base, float), sv.frame, sv.form.name)
+    sv = clone_of(sv, how.get("clone", "none"))
+    if sv is not original and (np.shares_memory(np.asarray(sv.base), np.asarray(original.base)) or sv._data is original._data):
+        raise Violation("clone-shares", f"{how.get('clone')} of a state shares its buffer or attributes with the original")
     if setter:
-        sv.frame = fr[b]
+        sv.frame = frame_spelling(fr, b, "name" if spell == "same" else spell)
         out = sv
+    elif spell == "same":
+        template = StateVector([4e6, 5e6, 6e6, 1.0, 2.0, 3.0], dt, "cartesian", fr[b]).copy(form=held)
+        out = sv.copy(same=template)
     else:
-        out = sv.copy(frame=fr[b])
+        out = sv.copy(frame=frame_spelling(fr, b, spell))
     if out.frame is not fr[b]:
         raise Violation("frame-attr", f"{a}->{b}: result carries frame {out.frame}")
-    res = np.asarray(out.base, float)
+    if out.form.name != held:
+        raise Violation("form-attr", f"{a}->{b}: a state held in {held} comes back in {out.form.name}")
+    if sv is not original and not (np.array_equal(np.asarray(original.base, float), kept[0])
+                                   and original.frame is kept[1] and original.form.name == kept[2]):
+        raise Violation("clone-shares", f"{a}->{b}: converting a {how.get('clone')} clone changed the original state")
+    if before is not None:
+        if not np.array_equal(arg, before):
+            raise Violation("argument-modified", f"{a}->{b}: the caller's array was changed")
+        if np.shares_memory(arg, np.asarray(out.base)):
+            raise Violation("argument-aliased", f"{a}->{b}: the state lives in the caller's array")
+    if held != "cartesian":
+        out = out.copy(form="cartesian")
+    res = np.array(out.base, float)
     if not np.all(np.isfinite(res)):
         raise Violation("non-finite", f"{a}->{b}: {res.tolist()}")
     return res
 
 
-def reconvert(fr, vec, dt, a, b, setter=False):
-    return convert(fr, vec, dt, a, b, setter)
+def reconvert(fr, vec, dt, a, b, setter=False, how=None):
+    return convert(fr, vec, dt, a, b, setter, how)
 
 
 REL = 2.5e-14  # 1e-6 m on 4e7 m, 1e-3 m on 1e11 m
 
 
-def close(got, want, scales, what):
+def close(got, want, scales, what, factor=1.0):
     """Position / velocity agreement relative to the magnitudes that went through the arithmetic."""
     ps = max(float(np.linalg.norm(s[:3])) for s in scales)
     vs = max(float(np.linalg.norm(s[3:])) for s in scales)
     # a velocity also carries omega x r of the positions involved (1e7 m/s for the Sun seen from ITRF)
     vs = max(vs, 7.3e-5 * ps)
-    tol_p = REL * ps + 1e-9
-    tol_v = REL * vs + 1e-12
+    tol_p = (REL * ps + 1e-9) * factor
+    tol_v = (REL * vs + 1e-12) * factor
     dp = float(np.linalg.norm(got[:3] - want[:3]))
     dv = float(np.linalg.norm(got[3:] - want[3:]))
     if dp > tol_p or dv > tol_v:
@@ -338,16 +444,46 @@ def check_inverse(case):
     names = labels_of(case)
     worst = 0.0
     n = 0
+    used = set()
     for i, a in enumerate(names):
         for j, b in enumerate(names):
             if a == b:
                 continue
             setter = case["setter"] ^ ((i + j) % 2 == 0)
-            y = convert(fr, x, dt, a, b, setter)
-            z = reconvert(fr, y, dt, b, a, setter)
-            worst = max(worst, close(z, x, (x, y), f"inverse: {a}->{b}->{a}"))
+            # the spelling of the request walks through its variants with the pair
+            base = case.get("how")
+            how = None
+            if base:
+                k = 3 * i + j
+                how = dict(container=CONTAINERS[(base["container"] + k) % len(CONTAINERS)],
+                           clone=CLONES[(base["clone"] + k // 2) % len(CLONES)],
+                           spell=SPELLS[(base["spell"] + k // 3) % len(SPELLS)],
+                           held=HELD[(base["held"] + k // 5) % len(HELD)])
+                for v in how.values():
+                    used.add(v)
+            x_in = shape_state(x, how["container"])[1] if how else x
+            y = convert(fr, x_in, dt, a, b, setter, how)
+            factor = 1.0
+            if how and how["held"] != "cartesian":
+                factor = polar_conditioning(x_in, y)
+                if factor > 1e6:
+                    continue
+            if how and how["container"] == "f32":
+                # the way back hands the float32-rounded image over: compare with what that image stands for
+                y = shape_state(y, "f32")[1]
+                z = reconvert(fr, y, dt, b, a, setter, how)
+                back = convert(fr, y, dt, b, a, setter)
+                worst = max(worst, close(z, back, (x_in, y), f"inverse: {a}->{b}->{a} ({how})", factor))
+            elif how and how["container"] in ("ints", "i64"):
+                y = shape_state(y, "ints")[1]
+                z = reconvert(fr, y, dt, b, a, setter, how)
+                back = convert(fr, y, dt, b, a, setter)
+                worst = max(worst, close(z, back, (x_in, y), f"inverse: {a}->{b}->{a} ({how})", factor))
+            else:
+                z = reconvert(fr, y, dt, b, a, setter, how)
+                worst = max(worst, close(z, x_in, (x_in, y), f"inverse: {a}->{b}->{a}" + (f" ({how})" if how else ""), factor))
             n += 1
-    return dict(nt=True, cls=case_classes(case) + [f"pairs:{n}"], ratio=worst)
+    return dict(nt=True, cls=case_classes(case) + [f"pairs:{n}"] + sorted("how:" + u for u in used), ratio=worst)
 
 
 # ----------------------------------------------------------------- facet: path independence
@@ -635,7 +771,8 @@ def reference_checks(case, kind, vals=None):
 def check_reference(case):
     kind = oracle_kind(eop_of(case["shard"]))
     worst = reference_checks(case, kind)
-    return dict(nt=True, cls=[f"eop:{kind}", era_label(case["mjd"]), f"label:{case.get('label', 'UTC')}"], ratio=worst)
+    return dict(nt=True, cls=[f"eop:{kind}", era_label(case["mjd"]), f"label:{case.get('label', 'UTC')}",
+                              f"edge:{case.get('edge', 'none')}"], ratio=worst)
 
 
 def check_chains(case):
@@ -653,8 +790,8 @@ def check_chains(case):
     v = float(np.abs(M[3:]).max())
     if v > 1e-15:
         raise Violation("chains-rate", f"EME2000->GCRF leaves a velocity coupling of {v:.3g} 1/s")
-    return dict(nt=True, cls=[f"eop:{eop_of(case['shard'])}", era_label(case["mjd"]), f"label:{case.get('label', 'UTC')}"],
-                ratio=ang / (0.1 * ARCSEC))
+    return dict(nt=True, cls=[f"eop:{eop_of(case['shard'])}", era_label(case["mjd"]), f"label:{case.get('label', 'UTC')}",
+                              f"edge:{case.get('edge', 'none')}"], ratio=ang / (0.1 * ARCSEC))
 
 
 # ----------------------------------------------------------------- facet: EOP configurations
